@@ -105,6 +105,8 @@ def main():
         finally:
             sh("git -C /repo worktree remove --force %s" % wt2)
             shutil.rmtree(wt2, ignore_errors=True)
+            # the evidence file and the harness module were rewritten for the scratch tree: restore them
+            sh("git checkout -- evidence/%s.json harness/go.mod harness/go.sum" % prop, cwd=VERIF)
     else:
         rc0, out0 = sh("git -C /repo status --porcelain")
         if out0.strip():
